@@ -194,7 +194,7 @@ MANDATORY = ["- -", "- - -", "- - - -", "CD -", "cr -", "CD - -", "C - -", "CD C
              "u -", "u - -", "u u", "Cu -", "uD C", "q -", "ms -", "k -", "K -", "n -", "n u"]
 
 def conc_cases(rng, thorough):
-    cap_fixed = 100000 if thorough else 6000
+    cap_fixed = 8000 if thorough else 2500
     out = ["conc 100000 dfs " + p for p in MANDATORY]
     fixed = ["CUD cr Ux", "CC UD", "x r D D", "uU u -"]
     if thorough: fixed += ["CDD CDD CDD", "CcDD crU", "U U U U", "CD CD D D", "u u u", "Cu qr k", "uu Cu -"]
